@@ -535,6 +535,54 @@ fn volume_exec(kind: &usize, ctx: &WorkerCtx) -> ExecResult {
     })
 }
 
+/// Two Node values in one process (same name, same creation, so their calls carry equal reply identifiers), each with its
+/// own connection and a call waiting: each call returns the reply sent on its own node's connection.
+fn two_nodes_exec(order: &usize, ctx: &WorkerCtx) -> ExecResult {
+    let order = *order;
+    run_rt(async move {
+        let mut res = ExecResult::default();
+        let w = World::new(ctx.heartbeat.clone(), &ctx.listeners).await;
+        w.gates.set_active(&[]);
+        let mut nodes = vec![];
+        let mut peers = vec![];
+        for _ in 0..2 {
+            let node = Arc::new(Node::new("me@127.0.0.1", crate::world::COOKIE));
+            let n2 = node.clone();
+            let mut h = tokio::spawn(async move { n2.connect(PEER_NAME).await });
+            let Some(mut peer) = w.accept_peer().await else { res.violations.push(("library never connected to the peer".into(), json!({}))); return res; };
+            if let Err(e) = w.peer_handshake(&mut peer, flags_default()).await { res.violations.push(("handshake failed".into(), json!({"error": e}))); return res; }
+            for _ in 0..20_000 { w.yield_once().await; if h.is_finished() { break; } }
+            if !h.is_finished() || !matches!((&mut h).await, Ok(Ok(()))) { res.violations.push(("connect did not succeed".into(), json!({}))); return res; }
+            nodes.push(node); peers.push(peer);
+        }
+        tokio::time::pause();
+        let results: Arc<Mutex<Vec<(usize, CallResult)>>> = Arc::new(Mutex::new(vec![]));
+        let probe = { let r = results.clone(); move || r.lock().unwrap().len() as u64 };
+        let mut tos: Vec<Option<RefVal>> = vec![None, None];
+        for &i in &[order % 2, 1 - order % 2] {
+            let (node, results_t) = (nodes[i].clone(), results.clone());
+            tokio::spawn(async move {
+                let r = node.rpc_call_raw_with_timeout(PEER_NAME, "m", "f", vec![OwnedTerm::Integer(10 + i as i64)], Duration::from_secs(60)).await;
+                results_t.lock().unwrap().push((i, match r { Ok(v) => CallResult::Ok(format!("{:?}", v)), Err(edp_node::Error::RpcTimeout(_)) => CallResult::Timeout, Err(edp_node::Error::RpcCancelled) => CallResult::Cancelled, Err(e) => CallResult::Other(e.to_string()) }));
+            });
+            w.settle(&mut peers[i], &probe).await;
+            let (frames, _) = peers[i].dist_frames();
+            for f in &frames { if let Ok(m) = read_pass_through(f) { if let Some((from, k)) = marker_of_request(&m) { if k == 10 + i as i64 { tos[i] = Some(from); } } } }
+        }
+        if tos.iter().any(|t| t.is_none()) { res.violations.push(("request of a call never reached the peer".into(), json!({"seen": format!("{:?}", tos.iter().map(|t| t.is_some()).collect::<Vec<_>>())}))); return res; }
+        for &i in &[1 - order % 2, order % 2] { let f = reply_frame(tos[i].as_ref().unwrap(), 10 + i as i64); peers[i].send(&f); w.settle(&mut peers[i], &probe).await; }
+        tokio::time::advance(Duration::from_secs(120)).await;
+        for p in peers.iter_mut() { w.settle(p, &probe).await; }
+        let got = results.lock().unwrap().clone();
+        let ok = (0..2).all(|i| got.iter().find(|x| x.0 == i).map(|x| x.1.clone()) == Some(CallResult::Ok(format!("{:?}", expected_reply_term(10 + i as i64)))));
+        if !ok { res.violations.push(("a call returned something other than the reply addressed to it".into(), json!({"what": "two Node values in one process, one call each, equal reply identifiers", "reply_identifiers": tos.iter().map(|t| t.as_ref().map(|t| t.short())).collect::<Vec<_>>(), "results": format!("{:?}", got)}))); }
+        if nodes.iter().any(|n| n.pending_rpc_count() != 0) { res.violations.push(("bookkeeping remains after every call has returned".into(), json!({"pending": nodes.iter().map(|n| n.pending_rpc_count()).collect::<Vec<_>>()}))); }
+        res.steps = 4;
+        res.outcome = format!("two nodes {}", order);
+        res
+    })
+}
+
 /// Two remote nodes whose names stand in a prefix relation (`peer@127.0.0.1` and `peer@127.0.0.1x`): a call to one of them
 /// waits while the connection to the other goes down; the waiting call still gets its reply, and a call to the node that
 /// went down is the one that fails.
@@ -710,6 +758,8 @@ pub fn run(rep: &Report) -> Value {
     let st_s = crate::explore::for_all(rep, "late reply of a finished call re-sent before each later reply", &lens, |n, ctx| straggler_exec(n, ctx));
     let crs = vec![1u32, 2, 77];
     let st_ps = crate::explore::for_all(rep, "a call made before Node::start, its late reply after a call made afterwards", &crs, |n, ctx| prestart_straggler_exec(n, ctx));
+    let tn = vec![0usize, 1];
+    let st_tn = crate::explore::for_all(rep, "two Node values in one process with equal reply identifiers", &tn, |n, ctx| two_nodes_exec(n, ctx));
     let vo = vec![0usize, 1];
     let st_vo = crate::explore::for_all(rep, "a very large reply ahead of others; 1 100 timed-out calls before an answered one", &vo, |n, ctx| volume_exec(n, ctx));
     let sm = vec![0usize, 1, 2];
@@ -720,7 +770,7 @@ pub fn run(rep: &Report) -> Value {
     let st_fn = crate::explore::for_all(rep, "calls failing on another connection between waiting calls", &nf, |n, ctx| failing_neighbour_exec(n, ctx));
     let sizes = vec![(24usize, false), (24, true)];
     let st_st = crate::explore::for_all(rep, "peer stops reading under an oversized request, second caller queued behind it", &sizes, |n, ctx| stalled_rpc_exec(n, ctx));
-    let states: u64 = all.iter().map(|(_, s)| s.executions).sum::<u64>() + st_s.executions + st_st.executions + st_fn.executions + st_ps.executions + st_pn.executions + st_sm.executions + st_vo.executions;
+    let states: u64 = all.iter().map(|(_, s)| s.executions).sum::<u64>() + st_s.executions + st_st.executions + st_fn.executions + st_ps.executions + st_pn.executions + st_sm.executions + st_vo.executions + st_tn.executions;
     let transitions: u64 = all.iter().map(|(_, s)| s.transitions).sum::<u64>() + st_s.transitions;
     let mut samples: Vec<Value> = vec![];
     for (_, s) in &all { samples.extend(s.samples.iter().take(2).cloned()); }
